@@ -227,9 +227,28 @@ def run(chk: core.Check):
             out, raised = bib.writer.write(lib, fmt), False
         except Exception as ex:  # noqa
             out, raised = f"{type(ex).__name__}: {ex}", True
-        cases.append({"id": cid, "lib": project(lib, M), "fmt": f, "out": out, "raised": raised,
+        cases.append({"id": cid, "lib": project(lib, M), "fmt": f, "out": out, "raised": raised, "may_raise": False,
                       "fmt_unchanged": fmt_state(fmt) == before})
         inputs[cid] = text
+    # writes that may raise: a non-string field value (e.g. an int month) handed to the bare writer, or a warning template
+    # that str.format rejects - whatever happens, the format object is left as it was
+    for vc in ("auto", 0, 7):
+        for kind in ("int value", "bad template"):
+            cid = len(cases)
+            text = "@a{k, month = 3, title = {t}}\n@b{j, f = {x\n@c{i, longfieldname = 1}"
+            lib = bib.parse_string(text, parse_stack=[])
+            f = {"indent": "\t", "vc": -1 if vc == "auto" else vc, "sep": "\n\n", "tc": False,
+                 "pfc": {"pre": "% {oops} ", "post": "", "n": True} if kind == "bad template" else {"pre": "% failed ", "post": "", "n": True}}
+            fmt = build_fmt(bib, f)
+            if kind == "int value":
+                lib.entries[0].set_field(M.Field("month", 3))
+            before = fmt_state(fmt)
+            try:
+                out, raised = bib.writer.write(lib, fmt), False
+            except Exception as ex:  # noqa
+                out, raised = f"{type(ex).__name__}: {ex}", True
+            cases.append({"id": cid, "lib": [], "fmt": f, "out": out, "raised": raised, "may_raise": True, "fmt_unchanged": fmt_state(fmt) == before})
+            inputs[cid] = text + "  [" + kind + "]"
     verdict = core.validate_traces("Trace_Writer", cases, shards=8)
     for r in verdict.results:
         chk.add_tlc(r, "Trace_Writer shard", count_states=False)
